@@ -199,7 +199,9 @@ def hedgeSigma2 (p : Fin (4 * 4)) : Fin (4 * 4) :=
 
 /-- cloning, two repetitions: position `(y₁ y₂ z₁ z₂ x₁ x₂)` (the order produced by the code's
     `permutation_operator(2, [0, 3, 1, 4, 2, 5])`; outputs first) ↦ position `(y₁ z₁ x₁ y₂ z₂ x₂)` (the order of
-    `Q ⊗ Q` and of the primal variable, whose `partial_trace` removes systems `[0, 1, 3, 4]`) -/
+    `Q ⊗ Q`).  The dual program works in the first order.  The primal program of the code takes its objective operator in the
+    first order but traces the positions `[0, 1, 3, 4]` of its variable — the correct program with `Z₁` and `X₁` exchanged, which
+    has the same optimum for the real ensembles the function accepts (`cloneQ_exchange_invariant_real`). -/
 def cloneSigma2 (p : Fin (16 * 4)) : Fin (16 * 4) :=
   ⟨(32 * bit 6 p.val 0 + 16 * bit 6 p.val 2 + 8 * bit 6 p.val 4 + 4 * bit 6 p.val 1 + 2 * bit 6 p.val 3
       + bit 6 p.val 5) % 64, Nat.mod_lt _ (by decide)⟩
@@ -216,5 +218,63 @@ def cloneVec {m : Nat} (ψ : EMat m 1) (p : Fin (m * m * m)) : QI :=
 def cloneQ {m : Nat} (states : List (EMat m 1)) (probs : List Rat) : EMat (m * m * m) (m * m * m) :=
   ofFn fun p q => sumFin states.length fun k =>
     QI.smul (probs.getD k.val 0) (cloneVec (states.getD k.val zero) p * (cloneVec (states.getD k.val zero) q).conj)
+
+/-! ## Index lists built by `QuantumHedging.__init__` and `optimal_clone` for `n` repetitions -/
+
+/-- `self._sys = list(range(0, 2 * n - 1, 2))`: the systems `Y₁ … Yₙ` in the order `Y₁X₁ … YₙXₙ` -/
+def hedgeSys (n : Nat) : List Nat := (List.range n).map (2 * ·)
+
+/-- `self._dim = [2] * (2 n)` -/
+def hedgeDim (n : Nat) : List Nat := List.replicate (2 * n) 2
+
+/-- `perm = [*sum(zip(l_1, l_2), ())]` with `l_1 = range(n)`, `l_2 = range(n, n²)`: `zip` stops at the shorter list
+    (`min n (n² − n)` pairs `(k, n + k)`) -/
+def hedgePerm (n : Nat) : List Nat := (List.range (min n (n * n - n))).flatMap fun k => [k, n + k]
+
+/-- `sys = [e - 1 for e in range(1, 3 n) if e % 3 != 0]`: the systems `Y_k, Z_k` in the order `Y₁Z₁X₁ … YₙZₙXₙ` -/
+def cloneSys (n : Nat) : List Nat := ((List.range (3 * n)).filter fun e => decide (1 ≤ e) && decide (e % 3 ≠ 0)).map (· - 1)
+
+/-- `perm`: for `i` in `0..2` the systems `i, i + 3, …, i + 3 (n − 1)` (`Y₁…Yₙ Z₁…Zₙ X₁…Xₙ`) -/
+def clonePerm (n : Nat) : List Nat := (List.range 3).flatMap fun i => (List.range n).map fun j => i + 3 * j
+
+/-! ## Kronecker products: `tensor(q_a, num_reps)`, `np.kron(Q₁, Q₂)` -/
+
+/-- `np.kron(A, B)` of two square exact matrices: `(A ⊗ B)[p, q] = A[p / N₂, q / N₂] · B[p % N₂, q % N₂]` -/
+def kronE {N₁ N₂ : Nat} (A : EMat N₁ N₁) (B : EMat N₂ N₂) : EMat (N₁ * N₂) (N₁ * N₂) :=
+  ofFn fun p q => A.get (fstIdx p) (fstIdx q) * B.get (sndIdx p) (sndIdx q)
+
+/-! ## Parallel repetition of an extended game (`ExtendedNonlocalGame.__init__`, branch `reps > 1`)
+
+```
+self.prob_mat = tensor(prob_mat, reps)
+for i in range(num_alice_in**reps):
+    for j in range(num_bob_in**reps):
+        for k in range(reps - 1, -1, -1):
+            to_tensor[k] = pred_mat[:, :, :, :, i_ind[k], j_ind[k]]
+        pred_mat2[:, :, :, :, i, j] = tensor(to_tensor)          # np.kron of the 4-axis arrays
+        j_ind = update_odometer(j_ind, num_bob_in * np.ones(reps))
+    i_ind = update_odometer(i_ind, num_alice_in * np.ones(reps))
+```
+`i_ind` / `j_ind` are the big-endian digits of `i` / `j` (the odometer increments the last digit first), `np.kron` on
+4-axis arrays is the Kronecker product on every axis: with `a = a₁·|A| + a₂`, `b = b₁·|B| + b₂`, `x = x₁·|X| + x₂`,
+`y = y₁·|Y| + y₂` the operator `pred_mat2[:, :, a, b, x, y]` is `pred[:, :, a₁, b₁, x₁, y₁] ⊗ pred[:, :, a₂, b₂, x₂, y₂]`. -/
+
+/-- product of two extended games (first game = most significant digit of every label) -/
+def tensorGame {d d' : Nat} (G : Game d) (H : Game d') : Game (d * d') where
+  nA := G.nA * H.nA
+  nB := G.nB * H.nB
+  nX := G.nX * H.nX
+  nY := G.nY * H.nY
+  prob := fun x y => G.prob (x / H.nX) (y / H.nY) * H.prob (x % H.nX) (y % H.nY)
+  pred := fun a b x y =>
+    kronE (G.pred (a / H.nA) (b / H.nB) (x / H.nX) (y / H.nY)) (H.pred (a % H.nA) (b % H.nB) (x % H.nX) (y % H.nY))
+
+/-- the game stored by `ExtendedNonlocalGame(prob_mat, pred_mat, reps)` for `reps = m + 1` (with its referee dimension) -/
+def repGame {d : Nat} (G : Game d) : Nat → (D : Nat) × Game D
+  | 0 => ⟨d, G⟩
+  | m + 1 => ⟨(repGame G m).1 * d, tensorGame (repGame G m).2 G⟩
+
+/-- answer function of the product strategy: `x = x₁·nX₂ + x₂ ↦ f₁ x₁ · nA₂ + f₂ x₂` -/
+def prodFn (nIn₂ nOut₂ : Nat) (f₁ f₂ : Nat → Nat) : Nat → Nat := fun x => f₁ (x / nIn₂) * nOut₂ + f₂ (x % nIn₂)
 
 end Toq.ExtGames
